@@ -9,10 +9,10 @@ EXTENDS Integers, Sequences, TLC, Json, IOUtils
 Recs == ndJsonDeserialize(IOEnv.TRACE)
 N == Len(Recs)
 NSh == atoi(IOEnv.NSHARDS)
-VARIABLES k, i
-tvars == <<k, i>>
-ShardInit == k \in 1..NSh /\ i = k
-ShardNext == i + NSh <= N /\ i' = i + NSh /\ UNCHANGED k
+VARIABLES tk, ti
+tvars == <<tk, ti>>
+ShardInit == tk \in 1..NSh /\ ti = tk
+ShardNext == ti + NSh <= N /\ ti' = ti + NSh /\ UNCHANGED tk
 \* B-level disagreement is drift, reported but never a verdict: prints the record index, evaluates to TRUE
-Drift(cond, what) == IF cond THEN TRUE ELSE PrintT(<<"DRIFT", what, i>>)
+Drift(cond, what) == IF cond THEN TRUE ELSE PrintT(<<"DRIFT", what, ti>>)
 =============================================================================
